@@ -49,11 +49,120 @@ func main() {
 }
 
 // ---------------------------------------------------------------------------------------------
+// typed ids
+
+// tid is a typed JSON-RPC id as the spec writes it: [t |-> "num" | "str" | "none", v |-> text, n |-> the
+// integer the text denotes as a decimal int32 literal, or noNum].  The string "7" and the number 7 are
+// different ids.
+type tid struct {
+	T string `json:"t"`
+	V string `json:"v"`
+	N int    `json:"n"`
+}
+
+const noNum = -1000
+
+var (
+	noTid     = tid{T: "none", V: "", N: noNum}
+	decimalRe = regexp.MustCompile(`^[+-]?[0-9]+$`)
+)
+
+func numericValue(text string) int {
+	if decimalRe.MatchString(text) {
+		if v, err := strconv.ParseInt(text, 10, 32); err == nil {
+			return int(v)
+		}
+	}
+	return noNum
+}
+
+// tidOfQ reads the %q form the hooks report: #3 is the number 3, "3" the string.
+func tidOfQ(q string) tid {
+	switch {
+	case q == "":
+		return noTid
+	case strings.HasPrefix(q, "#"):
+		return tid{T: "num", V: q[1:], N: numericValue(q[1:])}
+	case len(q) >= 2 && q[0] == '"' && q[len(q)-1] == '"':
+		return tid{T: "str", V: q[1 : len(q)-1], N: numericValue(q[1 : len(q)-1])}
+	}
+	return tid{T: "other", V: q, N: noNum}
+}
+
+// tidOfRaw reads the JSON token the peer finds on the wire: a number token or a string token.
+func tidOfRaw(raw []byte) tid {
+	var s string
+	if len(raw) > 0 && raw[0] == '"' {
+		if json.Unmarshal(raw, &s) == nil {
+			return tid{T: "str", V: s, N: numericValue(s)}
+		}
+		return tid{T: "other", V: string(raw), N: noNum}
+	}
+	return tid{T: "num", V: string(raw), N: numericValue(string(raw))}
+}
+
+// q is the %q form, wire the JSON token of the id.
+func (t tid) q() string {
+	if t.T == "num" {
+		return "#" + t.V
+	}
+	return `"` + t.V + `"`
+}
+func (t tid) wire() string {
+	if t.T == "num" {
+		return t.V
+	}
+	b, _ := json.Marshal(t.V)
+	return string(b)
+}
+
+// tidOfID reads a decoded jsonrpc2.ID through its unambiguous %q form (#7 is a number, "7" a string).
+func tidOfID(id jsonrpc2.ID) tid {
+	q := fmt.Sprintf("%q", id)
+	if strings.HasPrefix(q, `"`) {
+		if s, err := strconv.Unquote(q); err == nil {
+			return tid{T: "str", V: s, N: numericValue(s)}
+		}
+	}
+	return tidOfQ(q)
+}
+
+// tidOfMsg: the id a decoded message carries (none for notifications).
+func tidOfMsg(m jsonrpc2.Message) tid {
+	switch v := m.(type) {
+	case *jsonrpc2.Call:
+		return tidOfID(v.ID())
+	case *jsonrpc2.Response:
+		return tidOfID(v.ID())
+	}
+	return noTid
+}
+
+// tlaSafe spells an id text with characters a TLA+ string literal can hold: bytes outside [A-Za-z0-9 _.+-]
+// become %XX (injective; the predicted and the observed ids are compared in this spelling).
+func tlaSafe(s string) string {
+	var b strings.Builder
+	for i := 0; i < len(s); i++ {
+		c := s[i]
+		switch {
+		case c >= 'a' && c <= 'z', c >= 'A' && c <= 'Z', c >= '0' && c <= '9', c == ' ', c == '_', c == '.', c == '+', c == '-':
+			b.WriteByte(c)
+		default:
+			fmt.Fprintf(&b, "%%%02X", c)
+		}
+	}
+	return b.String()
+}
+
+func (t tid) safe() tid { return tid{T: t.T, V: tlaSafe(t.V), N: t.N} }
+
+// ---------------------------------------------------------------------------------------------
 // catalogue: the concrete messages behind the spec's Msgs indices (1-based in the spec)
 
 type catMsg struct {
 	Kind string // call | notify | response
 	IDK  string // num | str | none
+	ID   tid    // the id as constructed, typed
 	Msg  jsonrpc2.Message
 	Body []byte
 	Desc string
@@ -80,6 +189,12 @@ func catalogue() []catMsg {
 		{"response", "num", must(jsonrpc2.NewResponse(jsonrpc2.NewNumberID(2147483647), nil, jsonrpc2.NewError(jsonrpc2.InvalidParams, "bad \u00e9")))},
 		{"notify", "none", must(jsonrpc2.NewNotification("window/logMessage", long))}, // three-digit length
 		{"call", "num", must(jsonrpc2.NewCall(jsonrpc2.NewNumberID(0), "shutdown", nil))},
+		// string ids whose text looks like a number: they are strings, not the numbers 7, 42, 7, -1
+		{"call", "str", must(jsonrpc2.NewCall(jsonrpc2.NewStringID("7"), "m", "\u00e9"))},
+		{"response", "str", must(jsonrpc2.NewResponse(jsonrpc2.NewStringID("42"), "ok", nil))},
+		{"response", "str", must(jsonrpc2.NewResponse(jsonrpc2.NewStringID("007"), nil, jsonrpc2.NewError(jsonrpc2.InvalidParams, "bond")))},
+		{"call", "str", must(jsonrpc2.NewCall(jsonrpc2.NewStringID("-1"), "n", nil))},
+		{"response", "num", must(jsonrpc2.NewResponse(jsonrpc2.NewNumberID(-12), "neg", nil))},
 	}
 	out := make([]catMsg, len(raw))
 	for i, r := range raw {
@@ -87,7 +202,10 @@ func catalogue() []catMsg {
 		if err != nil {
 			vhlib.Fatal("marshal catalogue message %d: %v", i, err)
 		}
-		out[i] = catMsg{Kind: r.kind, IDK: r.idk, Msg: r.msg, Body: body, Desc: describe(r.msg)}
+		out[i] = catMsg{Kind: r.kind, IDK: r.idk, ID: tidOfMsg(r.msg), Msg: r.msg, Body: body, Desc: describe(r.msg)}
+		if out[i].ID.T != r.idk {
+			vhlib.Fatal("catalogue message %d: id %v is not of kind %s", i, out[i].ID, r.idk)
+		}
 	}
 	return out
 }
@@ -128,13 +246,14 @@ func printCatalogue() {
 	type row struct {
 		Kind string `json:"kind"`
 		IDK  string `json:"idk"`
+		ID   tid    `json:"id"` // text in the tlaSafe spelling
 		Blen int    `json:"blen"`
 		Rlen int    `json:"rlen"`
 		Body string `json:"body"`
 	}
 	var rows []row
 	for _, c := range catalogue() {
-		rows = append(rows, row{c.Kind, c.IDK, len(c.Body), utf8.RuneCount(c.Body), string(c.Body)})
+		rows = append(rows, row{c.Kind, c.IDK, c.ID.safe(), len(c.Body), utf8.RuneCount(c.Body), string(c.Body)})
 	}
 	b, _ := json.Marshal(rows)
 	fmt.Println(string(b))
@@ -153,6 +272,7 @@ type behaviour struct {
 	Chunks  []int    `json:"chunks"`
 	Read    []int    `json:"read"`
 	Err     string   `json:"err"`
+	IDs     []tid    `json:"ids"` // the spec's ReadIds: the typed id of every message it predicts to be read
 }
 
 const hdrName = "Content-Length"
@@ -363,6 +483,7 @@ func (c *chunkReader) Close() error                { return nil }
 
 type outcome struct {
 	Decoded []string `json:"decoded"`
+	IDs     []tid    `json:"ids"` // typed ids of the decoded messages (tlaSafe spelling)
 	ErrCls  string   `json:"err_class"`
 	ErrText string   `json:"err_text"`
 	Panic   string   `json:"panic,omitempty"`
@@ -408,6 +529,7 @@ func readAll(rwc io.ReadWriteCloser, limit int) (o outcome) {
 			return o
 		}
 		o.Decoded = append(o.Decoded, describe(msg))
+		o.IDs = append(o.IDs, tidOfMsg(msg).safe())
 	}
 	o.ErrCls, o.ErrText = "none", "reader produced more messages than were sent"
 	return o
@@ -446,6 +568,17 @@ func judge(b *behaviour, sent []string, o outcome) (sig, what string, drift bool
 		}
 		return "Framing.Panic." + b.Variant, "stream.Read panicked: " + o.Panic, false
 	}
+	// IdsPreserved: the id read back is the id written, including its type (b.IDs = the spec's ReadIds, which
+	// the model proves equal to the ids sent)
+	for k, got := range o.IDs {
+		if k < len(b.IDs) && got != b.IDs[k] {
+			what := fmt.Sprintf("message %d was written with the %s id %s and read back with the %s id %s", k+1, idKind(b.IDs[k]), b.IDs[k].q(), idKind(got), got.q())
+			if got.T != b.IDs[k].T {
+				return "Framing.IdsPreserved.TypeChanged", what, false
+			}
+			return "Framing.IdsPreserved", what, false
+		}
+	}
 	if !isPrefix(o.Decoded, sent) {
 		return "Framing.ReadIsPrefixOfSent." + b.Variant, "decoded messages are not a prefix of the messages sent", false
 	}
@@ -481,6 +614,16 @@ func judge(b *behaviour, sent []string, o outcome) (sig, what string, drift bool
 		vhlib.Fatal("unknown class %q", b.Class)
 	}
 	return "", "", false
+}
+
+func idKind(t tid) string {
+	switch t.T {
+	case "num":
+		return "number"
+	case "str":
+		return "string"
+	}
+	return t.T
 }
 
 var hdrRe = regexp.MustCompile(`^Content-Length: ([0-9]+)\r\n\r\n`)
@@ -545,6 +688,7 @@ func pipeRun(wire []byte, chunks []int, frameEnds []int, expectMsgs int) (sig, w
 	pr, pw := io.Pipe()
 	type item struct {
 		desc string
+		id   tid
 		err  error
 		tot  int64
 		pan  string
@@ -569,7 +713,7 @@ func pipeRun(wire []byte, chunks []int, frameEnds []int, expectMsgs int) (sig, w
 				pr.Close() // the writer side must not block on a reader that has given up
 				return
 			}
-			out <- item{desc: describe(msg)}
+			out <- item{desc: describe(msg), id: tidOfMsg(msg).safe()}
 		}
 	}()
 	const watchdog = 8 * time.Second
@@ -592,6 +736,7 @@ func pipeRun(wire []byte, chunks []int, frameEnds []int, expectMsgs int) (sig, w
 			finished = true
 		default:
 			o.Decoded = append(o.Decoded, it.desc)
+			o.IDs = append(o.IDs, it.id)
 		}
 	}
 	pos, nextEnd := 0, 0
@@ -769,6 +914,9 @@ func framing(path string, seed int64, splits int) {
 				}
 			}
 			gb := behaviour{Sent: b.Sent, Variant: "none", Class: "good", Err: "eof-clean"}
+			for _, mi := range b.Sent {
+				gb.IDs = append(gb.IDs, cat[mi-1].ID.safe())
+			}
 			ro := readAll(&chunkReader{data: rt, chunks: append([]int(nil), ch...)}, len(sent))
 			roundtrips++
 			if sig, what, _ := judge(&gb, sent, ro); sig != "" {
